@@ -9,6 +9,8 @@
 // trivially copyable): the helpers move such elements with std::memmove.  For this driver a memmove issued by the amc headers is a
 // LEDGER EVENT like a constructor or a destructor call (vf::relocMemmove below): the bytes are moved by the real memmove, then the
 // source slots that are not part of the destination range are overwritten with 0xEE (they hold no object any more: `R`).
+// The families of coq/AliasThrow.v (insert_own_*, insert_cnt_own_*, push_back_own_*, insert_range_in_*; _th: El<0>, _tr: El<1>) call the REAL
+// member functions of a whole amc::vector with an OWN element as the argument / a single-pass range (composite state block/e/new block).
 // The families of coq/Transfer.v (swap_deep, move_n, reloc*, erase_at*) are the WHOLE-CONTENT TRANSFERS: swap_deep, move_n,
 // RelocateToNewBuffer / amc::uninitialized_relocate_n run between TWO raw buffers (composite state <buffer 1>/<buffer 2>/<e>).
 // The line format, the real function behind every case and the model it is compared with: see SLOTDRV.md.
@@ -511,6 +513,144 @@ static void runGrow(const char *name, int size, int pos, int src, int rv) {
   }
 }
 
+// ---- member functions of a whole amc::vector whose argument is one of its OWN elements, and the single-pass range insertion
+// (coq/AliasThrow.v).  The vector is built with an exact capacity (`reserve (cap)`, then `size` elements 10, 11, ...): cap == size
+// (or cap < size + count) makes the call grow.  Composite state <block 0..cap-1>/<e>/<new block 0..capacity-1, or - when none exists>:
+//   block: the block the vector used before the call, read slot by slot through the ledger (`O` for every slot once the allocator
+//          ledger says it has been deallocated, `X` for an element of it that was never destroyed; `-` when cap == 0);
+//   <e>:   `R` when no live El exists outside the block(s), the external object and the source range, `X<n>` otherwise (the
+//          temporaries `T (v)` / `ElemStorage e` cannot be observed from outside);
+//   new block: `-` while the vector still uses the old one (`X` if the allocator ledger holds another block).
+// nRange: number of external elements 100, 101, ... handed to the body as a single-pass range (not counted in `live`).
+template <class E>
+struct InIt {
+  typedef std::input_iterator_tag iterator_category;
+  typedef E value_type;
+  typedef std::ptrdiff_t difference_type;
+  typedef const E *pointer;
+  typedef const E &reference;
+  const E *p;
+  reference operator*() const { return *p; }
+  pointer operator->() const { return p; }
+  InIt &operator++() {
+    ++p;
+    return *this;
+  }
+  InIt operator++(int) {
+    InIt r = *this;
+    ++p;
+    return r;
+  }
+  bool operator==(const InIt &o) const { return p == o.p; }
+  bool operator!=(const InIt &o) const { return p != o.p; }
+};
+
+// E = El<0> (families `*_th`) or El<1> (families `*_tr`: the relocation ledger is on, a relocated object is printed with `!`)
+template <class E>
+using VecOf = amc::vector<E, vf::LedgerAlloc<E, false>, SizeType>;
+
+template <class E, class Body>
+static void runVecOf(const char *name, const std::string &params, int size, int cap, int nRange, Body body) {
+  typedef E T;  // the element type of this runner (hides the global El<0>)
+  for (long k = -1;; ++k) {
+    bool threw = false;
+    {
+      vf::RelocScope relocLedger(std::is_same<E, TR>::value);
+      VecOf<E> v;
+      v.reserve(static_cast<SizeType>(cap));  // exact
+      for (int i = 0; i < size; ++i) v.emplace_back(kFirstValue + i);
+      T ext(kNewValue);  // alive during every case, as in every other family (not used)
+      BufOf<T> range(nRange);
+      for (int i = 0; i < nRange; ++i) ::new (static_cast<void *>(range.data + i)) T(kRangeValue + i);
+      T *oldData = v.data();
+      const bool asBuilt = static_cast<int>(v.size()) == size && static_cast<int>(v.capacity()) == cap;
+      std::vector<long> oldIds;
+      for (int i = 0; i < size; ++i) oldIds.push_back(oldData[i].id);
+      G().errors.clear();
+      const long errs0 = G().nErrors;
+      const size_t blocks0 = G().blocks.size();
+      const std::string pre = (cap == 0 ? std::string("-") : statesOf(oldData, cap)) + "/" + eState(G().live - 1 - nRange - size) + "/-";
+      std::printf("CASE %s %s k=%s |", name, params.c_str(), k < 0 ? "-" : std::to_string(k).c_str());
+      std::fflush(stdout);
+      G().countdown = k;
+      try {
+        body(v, static_cast<const T *>(range.data));
+      } catch (const std::runtime_error &) {
+        threw = true;
+      } catch (const std::bad_alloc &) {
+        threw = true;
+      }
+      G().countdown = -1;
+      const bool oldFreed = cap > 0 && G().blocks.find(oldData) == G().blocks.end();
+      const bool moved = v.data() != oldData;
+      std::string oldSeg, newSeg;
+      long accounted = 0;
+      if (cap == 0) {
+        oldSeg = "-";
+      } else if (!oldFreed) {
+        oldSeg = statesOf(oldData, cap);
+        accounted += liveIn(oldData, cap);
+      } else {
+        std::vector<std::string> o;
+        // (a relocated El<1> keeps its ledger id in the new block: nothing of it is left in the freed one)
+        for (int i = 0; i < cap; ++i) o.push_back(!std::is_same<E, TR>::value && i < size && G().isLive(oldIds[i]) ? "X" : "O");
+        oldSeg = vf::joinStr(o);
+      }
+      if (!moved) {
+        newSeg = G().blocks.size() == blocks0 ? "-" : "X";  // X: a block was allocated and not released
+      } else {
+        newSeg = statesOf(v.data(), static_cast<int>(v.capacity()));
+        accounted += liveIn(v.data(), static_cast<int>(v.capacity()));
+        if (G().blocks.size() != 1) newSeg += ",X";
+      }
+      const std::string post = oldSeg + "/" + eState(G().live - 1 - nRange - accounted) + "/" + newSeg;
+      const long errs = G().nErrors - errs0;
+      std::string msg;
+      for (int i = 0; i < nRange; ++i)
+        if (!G().isLive(range.data[i].id) || range.data[i].v != kRangeValue + i) msg = "the source range was modified";
+      if (!asBuilt) msg = "the vector was not built with the requested size and capacity";
+      if (errs != 0 && !G().errors.empty()) msg = G().errors[0];
+      std::printf(" pre=%s | post=%s | threw=%d | newsize=%ld | errs=%ld live=%ld", pre.c_str(), post.c_str(), threw ? 1 : 0,
+                  static_cast<long>(v.size()), errs, G().live - 1 - nRange);
+      if (!msg.empty()) std::printf(" msg=%s", msg.c_str());
+      std::printf("\n");
+      killAll(range);
+    }
+    if (k >= 0 && !threw) break;
+  }
+}
+// the four families of coq/AliasThrow.v for one element flavour (suffix `_th`: El<0>, `_tr`: El<1>)
+template <class E>
+static void runOwnFamilies(const char *suffix, const std::string &sc, int size, int cap, int extra, int maxExtra) {
+  const std::string sfx(suffix);
+  for (int src = 0; src < size; ++src) {
+    for (int pos = 0; pos <= size; ++pos) {
+      // insert (position, const T &): emplace (position, T (v)) for src >= pos, adjustCapacity + insert_n otherwise; cap == size grows
+      runVecOf<E>(("insert_own" + sfx).c_str(), sc + " " + P("pos", pos, "src", src), size, cap, 0,
+                  [=](VecOf<E> &v, const E *) { v.insert(v.begin() + pos, static_cast<const E &>(v[static_cast<SizeType>(src)])); });
+      // insert (position, count, const T &): count > cap - size grows
+      for (int count = 0; count <= maxExtra; ++count) {
+        runVecOf<E>(("insert_cnt_own" + sfx).c_str(), sc + " " + P("pos", pos, "count", count) + " " + P("src", src), size, cap, 0,
+                    [=](VecOf<E> &v, const E *) {
+                      v.insert(v.begin() + pos, static_cast<SizeType>(count), static_cast<const E &>(v[static_cast<SizeType>(src)]));
+                    });
+      }
+    }
+    // push_back (const T &): adjustCapacity (size + 1, v), then the copy
+    runVecOf<E>(("push_back_own" + sfx).c_str(), sc + " " + P("src", src), size, cap, 0,
+                [=](VecOf<E> &v, const E *) { v.push_back(static_cast<const E &>(v[static_cast<SizeType>(src)])); });
+  }
+  // insert (position, first, last) with single-pass iterators over `count` external elements, within the capacity
+  for (int pos = 0; pos <= size; ++pos) {
+    for (int count = 0; count <= extra; ++count) {
+      runVecOf<E>(("insert_range_in" + sfx).c_str(), sc + " " + P("pos", pos, "count", count), size, cap, count, [=](VecOf<E> &v, const E *range) {
+        InIt<E> first = {range}, last = {range + count};
+        v.insert(v.begin() + pos, first, last);
+      });
+    }
+  }
+}
+
 // ---- whole-content transfers between TWO raw buffers (coq/Transfer.v) ------------------------------------------------------------
 // Composite state <buffer 1 0..cap1-1>/<buffer 2 0..cap2-1>/<e>: buffer 1 starts with n1 elements 10, 11, ..., buffer 2 with n2 elements
 // 20, 21, ...; <e>: `R` when no live El exists outside the two buffers and the external object, `X<n>` otherwise (the temporary of
@@ -760,6 +900,11 @@ int main(int argc, char **argv) {
           return -1L;
         });
       }
+
+      // ---- coq/AliasThrow.v: the argument is an own element, single-pass ranges (real member functions of a whole amc::vector, every
+      // throw index), on El<0> and on the trivially relocatable El<1>
+      runOwnFamilies<T>("_th", sc, size, cap, extra, maxExtra);
+      runOwnFamilies<TR>("_tr", sc, size, cap, extra, maxExtra);
 
       // emplace / emplace_back of a full vector (growth path), once per size
       if (extra == 0) {
